@@ -46,6 +46,9 @@ func ParseSwagger(spec *openapi3.Swagger, opts SchemaOptions) (*Spec, error) {
 
 	for _, pathKey := range sortedKeys(spec.Paths) {
 		pathItem := spec.Paths[pathKey]
+		if pathItem == nil {
+			return nil, fmt.Errorf("path %q: path item is empty", pathKey)
+		}
 		pi := NewPathItem(pathKey)
 		for _, method := range httpMethods() {
 			operation := pathItem.GetOperation(string(method.HTTP))
@@ -105,6 +108,9 @@ type Schema struct {
 }
 
 func NewSchemaRef(schema *openapi3.SchemaRef, components Sourcer[Schema], opts SchemaOptions) (Ref[Schema], error) {
+	if schema == nil {
+		return nil, fmt.Errorf("schema is not set")
+	}
 	if schema.Ref != "" {
 		v, ok := components.Get(schema.Ref)
 		if !ok {
@@ -120,6 +126,9 @@ type SchemaOptions struct {
 }
 
 func NewSchema(schema *openapi3.Schema, components Sourcer[Schema], opts SchemaOptions) (*Schema, error) {
+	if schema == nil {
+		return nil, fmt.Errorf("schema is empty")
+	}
 	out := Schema{
 		Type:        schema.Type,
 		Format:      schema.Format,
